@@ -1017,7 +1017,6 @@ func (c *Client) dialAndConnect(config *Config) (net.Conn, *bufio.Reader, error)
 
 	// Don't make Close wait on a slow connect.
 	done := make(chan struct{})
-	defer close(done)
 	abort := make(chan error, 1)
 	go func() {
 		defer close(abort)
@@ -1037,7 +1036,7 @@ func (c *Client) dialAndConnect(config *Config) (net.Conn, *bufio.Reader, error)
 	// ⚠️ delayed error check
 	verifYield("k.shaken")
 
-	done <- struct{}{}
+	close(done) // won't block when the routine aborted already
 	verifYield("k.sync1")
 	e := <-abort
 	verifYield("k.sync2")
